@@ -168,7 +168,9 @@ PROPS["C14"] = dict(
     model="LexDriver.v, LRDriver.v over gen/Tables.v (regenerated); Grammar.v over gen/GrammarGen.v (regenerated from sexpr.bnf)",
     gens=[gens.gen_tables],
     extra_checks=[gens.gocc_regeneration],
-    harness=[dict(name="main", n_quick=1500, n_thorough=3000, shards_quick=1, shards_thorough=8, timeout=1500, coq_timeout=1500)],
+    harness=[dict(name="main", n_quick=1500, n_thorough=3000, shards_quick=1, shards_thorough=8, timeout=1500, coq_timeout=1500),
+             # Parse called from several goroutines at once (c14FunctionOfInput) under the race detector
+             dict(name="race", race=True, n_quick=300, n_thorough=1500, shards_quick=1, shards_thorough=2, coq=False, timeout=1500)],
     trusted=_SEXPR_TRUSTED,
     assumptions=["inputs are Go strings (arbitrary bytes)"],
     explanation="validator-based proofs over the tables transcribed from /repo on every run: lexer progress/totality, LR safety (no panic), termination, soundness w.r.t. the grammar transcribed from sexpr.bnf; tie: sexpr.Parse and lexer.Scan on generated strings against the table drivers AND against the bnf-derived regular-expression lexer + recursive descent",
